@@ -395,6 +395,9 @@ def run(ctx):
     # must agree on the order of the fields (shared with C07; includes the test-util dummy VDAF)
     from rules import c07
     c07.order_rules(ctx, "R-C12.S.order")
+    # "any message of the wrong kind ... is refused": the message-kind byte is decoded by an injective, complete table and every
+    # other value is refused (shared with C07)
+    c07.tag_rules(ctx, "R-C12.S.tags", floor=6)
 
     # ---------------- purity / restart
     rule = "R-C12.P.pure"
